@@ -93,3 +93,86 @@ func c08EvilPanics(r *Result) {
 		r.Stats["evil-panic-scenarios"]++
 	}
 }
+
+// c08ValueWithError: handlers that return BOTH a first result and an error - a half-filled response, a typed nil pointer, a
+// value that cannot be encoded, a pointer to a response. C08: an item whose handler returned an error is Operation Failed with
+// the error's message and reason and nothing else; whatever came back beside the error is not a payload, cannot make the
+// response unencodable, and leaves the neighbouring items' results alone.
+func c08ValueWithError(r *Result) {
+	values := []struct {
+		name string
+		v    func() interface{}
+	}{
+		{"a filled-in response struct", func() interface{} { return kmip.DestroyResponse{UniqueIdentifier: "half"} }},
+		{"a zero response struct", func() interface{} { return kmip.DestroyResponse{} }},
+		{"a typed nil pointer", func() interface{} { return (*kmip.DestroyResponse)(nil) }},
+		{"a pointer to a response", func() interface{} { return &kmip.DestroyResponse{UniqueIdentifier: "ptr"} }},
+		{"a value that cannot be encoded (channel)", func() interface{} { return make(chan int) }},
+		{"a value that cannot be encoded (map)", func() interface{} { return map[string]int{"a": 1} }},
+		{"a response of another operation", func() interface{} { return kmip.GetResponse{UniqueIdentifier: "other"} }},
+	}
+	errs := []struct {
+		name   string
+		e      error
+		reason kmip.Enum
+	}{
+		{"plain error", fmt.Errorf("nope"), kmip.RESULT_REASON_GENERAL_FAILURE},
+		{"error with reason", reasonErr{"nope", kmip.RESULT_REASON_ITEM_NOT_FOUND}, kmip.RESULT_REASON_ITEM_NOT_FOUND},
+	}
+	for vi, pv := range values {
+		for pos := 0; pos < 3; pos++ {
+			ev := errs[(vi+pos)%len(errs)]
+			key := fmt.Sprintf("handler returns %s together with a %s; failing item at position %d of 3", pv.name, ev.name, pos)
+			crumb("C08 scenario: " + key)
+			r.eval(key, true)
+			s := &kmip.Server{}
+			s.Handle(kmip.OPERATION_ACTIVATE, func(ctx *kmip.RequestContext, item *kmip.RequestBatchItem) (interface{}, error) {
+				return kmip.ActivateResponse{UniqueIdentifier: "ok"}, nil
+			})
+			s.Handle(kmip.OPERATION_DESTROY, func(ctx *kmip.RequestContext, item *kmip.RequestBatchItem) (interface{}, error) {
+				return pv.v(), ev.e
+			})
+			sc, cc := rec.Pipe()
+			rc := rec.NewConn(sc, 1)
+			l := rec.NewListener()
+			l.Push(rec.AcceptStep{Conn: rc})
+			init := make(chan struct{})
+			ret := make(chan error, 1)
+			go func() { ret <- s.Serve(l, init) }()
+			<-init
+			_ = cc.SetDeadline(time.Now().Add(3 * time.Second))
+			req := kmip.Request{Header: kmip.RequestHeader{Version: kmip.ProtocolVersion{Major: 1, Minor: 4}, BatchCount: 3}}
+			want := ""
+			for i := 0; i < 3; i++ {
+				if i == pos {
+					req.BatchItems = append(req.BatchItems, kmip.RequestBatchItem{Operation: kmip.OPERATION_DESTROY, UniqueID: []byte{byte(i + 1)}, RequestPayload: kmip.DestroyRequest{UniqueIdentifier: "b"}})
+					want += fmt.Sprintf("[op=%d id=%02x status=1 reason=%d msg=%q payload=<nil>] ", uint32(kmip.OPERATION_DESTROY), i+1, uint32(ev.reason), "nope")
+				} else {
+					req.BatchItems = append(req.BatchItems, kmip.RequestBatchItem{Operation: kmip.OPERATION_ACTIVATE, UniqueID: []byte{byte(i + 1)}, RequestPayload: kmip.ActivateRequest{UniqueIdentifier: "a"}})
+					want += fmt.Sprintf("[op=%d id=%02x status=0 reason=0 msg=\"\" payload=kmip.ActivateResponse] ", uint32(kmip.OPERATION_ACTIVATE), i+1)
+				}
+			}
+			var resp kmip.Response
+			err := kmip.NewEncoder(cc).Encode(&req)
+			if err == nil {
+				err = kmip.NewDecoder(cc).Decode(&resp)
+			}
+			obs := "no response: " + fmt.Sprint(err)
+			if err == nil {
+				obs = ""
+				for _, it := range resp.BatchItems {
+					obs += fmt.Sprintf("[op=%d id=%x status=%d reason=%d msg=%q payload=%T] ", uint32(it.Operation), it.UniqueID, uint32(it.ResultStatus), uint32(it.ResultReason), it.ResultMessage, it.ResponsePayload)
+				}
+			}
+			if obs != want {
+				r.find(Finding{Kind: "violation", What: "an item whose handler returned an error (together with a first result) was not reported as exactly that failure, or disturbed its batch", Input: key, Expect: want, Actual: obs})
+			}
+			cc.Close()
+			ctx, cancel := context.WithTimeout(context.Background(), 5*time.Second)
+			_ = s.Shutdown(ctx)
+			cancel()
+			<-ret
+			r.Stats["value-with-error-scenarios"]++
+		}
+	}
+}
